@@ -180,7 +180,7 @@ theorem rows_sim (o : AnsiOpts) (im : IceMode) (w ht : Nat) (hc : o.compress = f
   | cons row rest ih =>
     intro st y first p core hw hd h
     have hrw : row.length = w := hw row List.mem_cons_self
-    have hlen : ansiRowLen o w row = w := by unfold ansiRowLen; simp [hc]
+    have hlen : ansiRowLen o dosPalette w row = w := by unfold ansiRowLen; simp [hc]
     obtain ⟨R1, R2, R3⟩ := row_sim o im row (hd row List.mem_cons_self) w 0 st p core (by omega) h
     unfold genCells
     rw [hlen]
